@@ -31,7 +31,9 @@ Record case := mkCase {
   c_ts : Z; c_range : Z; c_off : Z;
   c_rate : option Q; c_increase : option Q; c_delta : option Q;
   c_irate : option Q; c_idelta : option Q; c_resets : option Q; c_changes : option Q;
-  c_overlap : bool
+  c_overlap : bool;
+  (* rate() as a range query ending at c_ts: (step timestamp, result) *)
+  c_steps : list (Z * option Q)
 }.
 
 (* |o - m| <= 1e-9 * |m|  (exact when m = 0) *)
@@ -75,7 +77,11 @@ Definition agree (c : case) : bool :=
   oexact (c_resets c) (ev c FResets) &&
   oexact (c_changes c) (ev c FChanges) &&
   Bool.eqb (c_overlap c)
-           (c_use_st c && eval_overlap_warning (c_use_st c) (c_samples c) (c_ts c) (c_range c) (c_off c)).
+           (c_use_st c && eval_overlap_warning (c_use_st c) (c_samples c) (c_ts c) (c_range c) (c_off c)) &&
+  (* every step of the range query is the instant query at that step *)
+  forallb (fun st => oclose (snd st)
+                       (eval fge64 FRate (c_use_st c) (c_samples c) (fst st) (c_range c) (c_off c)))
+          (c_steps c).
 
 (* ---- the property on the implementation's own output, independent of the model's result:
    (a) results equal the documented algorithm [doc_change]/[doc_rate] evaluated with exact
@@ -106,6 +112,20 @@ Definition doc_options (is_counter : bool) (w : list sample) (rs re : Z) : list 
                      is_counter w rs re) (outs dr)) (outs dl)
   end.
 
+(* documented irate / idelta: from the last two samples of the window; the per-second instant
+   rate restarts from zero after a reset *)
+Definition doc_instant (is_rate : bool) (w : list sample) : option Q :=
+  match length w <? 2, w with
+  | true, _ => None
+  | false, _ =>
+      let l := last w (mkS 0 0 0) in
+      let p := last (removelast w) (mkS 0 0 0) in
+      let d := if is_rate
+               then (if is_reset p l then sV l else sV l - sV p)%Q
+               else (sV l - sV p)%Q in
+      Some (if is_rate then d / ms (sT l - sT p) else d)%Q
+  end%nat.
+
 Definition isint_between (q : Q) (lo hi : Z) : bool :=
   let z := (Qnum q / Z.pos (Qden q)) in
   Qeq_bool q (inject_Z z) && (lo <=? z) && (z <=? hi).
@@ -118,8 +138,9 @@ Definition holds (c : case) : bool :=
   let len := Z.of_nat (length w0) in
   let rsec := ms (c_range c) in
   (* (a) documented algorithm *)
-  existsb (fun d => oclose (c_increase c) d) (doc_options true w rs re) &&
-  existsb (fun d => oclose (c_rate c) (option_map (fun x => x / rsec)%Q d)) (doc_options true w rs re) &&
+  (let docs := doc_options true w rs re in
+   existsb (fun d => oclose (c_increase c) d) docs &&
+   existsb (fun d => oclose (c_rate c) (option_map (fun x => x / rsec)%Q d)) docs) &&
   existsb (fun d => oclose (c_delta c) d) (doc_options false (eff false w0) rs re) &&
   (* (b) sign *)
   (if nonneg_samples w0 then
@@ -143,13 +164,23 @@ Definition holds (c : case) : bool :=
       (c_use_st c || Qle_bool r ch)
   | _, _ => false
   end &&
+  oclose (c_irate c) (doc_instant true w) && oclose (c_idelta c) (doc_instant false w0) &&
   match c_irate c, c_idelta c with
   | None, None => len <? 2
   | Some ir, Some _ => (2 <=? len) && (if nonneg_samples w0 then Qle_bool 0 ir else true)
   | _, _ => false
   end &&
   (if len <? 2 then match c_delta c with None => true | Some _ => false end
-   else match c_delta c with Some _ => true | None => false end).
+   else match c_delta c with Some _ => true | None => false end) &&
+  (* range-query steps: documented algorithm on the step's own window, and sign *)
+  forallb (fun st =>
+      let re' := fst st - c_off c in
+      let rs' := re' - c_range c in
+      let w' := window (c_samples c) rs' re' in
+      existsb (fun d => oclose (snd st) (option_map (fun x => x / rsec)%Q d))
+              (doc_options true (eff (c_use_st c) w') rs' re') &&
+      (if nonneg_samples w' then match snd st with Some r => Qle_bool 0 r | None => true end else true))
+    (c_steps c).
 
 Definition mismatches (cs : list case) : list Z := map c_id (filter (fun c => negb (agree c)) cs).
 Definition failing_holds (cs : list case) : list Z := map c_id (filter (fun c => negb (holds c)) cs).
